@@ -395,6 +395,33 @@ def folder_visible_tables() -> List[str]:
     return out
 
 
+# ------------------------------------------------------------------------------------------------- the documentation's band tables
+def doc_tables() -> List[str]:
+    """The category tables of the demonstration notebook (markdown, read as JSON text): the rows `|value|meaning|` under the named
+    `<summary>` headings.  C09's specification bands (`specBand`, `specUtil`) are written from these tables."""
+    import json
+    import re
+    from harness.lib.core import SRC
+    nb = json.loads((SRC / "notebooks" / "UC7-E2E-Demo.ipynb").read_text())
+    text = "\n".join("".join(c["source"]) for c in nb["cells"] if c["cell_type"] == "markdown")
+    out = []
+    for lean, heading in (("docExecutionsTable", "Application number of executions category table"), ("docAccessTable", "File number of access category table"),
+                          ("docLinkTable", "Link Values Mapping"), ("docNicTrafficTable", "NIC monitored traffic utilisation category table")):
+        i = text.find(heading)
+        if i < 0:
+            raise ValueError(f"documentation table {heading!r} not found")
+        block = text[i:text.index("</details>", i)]
+        rows = []
+        for line in block.splitlines():
+            m = re.match(r"^\|\s*([^|]+?)\s*\|\s*([^|]+?)\s*\|\s*$", line)
+            if m and not set(m.group(1)) <= set("-: ") and not m.group(1)[0].isalpha():
+                rows.append((m.group(1), m.group(2)))
+        if not rows:
+            raise ValueError(f"documentation table {heading!r} has no rows")
+        out.append(f"def {lean} : List (String × String) := " + lean_list([f"({q(a)}, {q(b)})" for a, b in rows]))
+    return out
+
+
 # ------------------------------------------------------------------------------------------------- emit
 def emit() -> str:
     trees: Dict[str, ast.Module] = {}
@@ -426,5 +453,7 @@ def emit() -> str:
     out += env_tables()
     out.append("")
     out += folder_visible_tables()
+    out.append("")
+    out += doc_tables()
     out.append("end Primaite.Gen.ObsCfgTables\n")
     return "\n".join(out)
